@@ -83,7 +83,11 @@ def run_pool(chk, flavour, cases):
 
 
 def run(chk):
-    chk.prove("Properties_C12")
+    # the pool model takes the two connection collections to be a linearizable map (collections_concurrent): that is C18's
+    # concurrent half - the lock protocol read off the source and what it gives - plus the systematic schedules of the real map
+    chk.prove("Properties_C12", extra_modules=("Properties_C18",))
+    import C18
+    C18.explore(chk)
     # (a) the HTTP_THREAD_SAFE build, simulated: same behaviour as the model on sequential histories
     H = simcheck.histories(chk)
     H = H[:: max(1, len(H) // (300 if chk.tier == "quick" else 2000))]
@@ -118,6 +122,9 @@ def run(chk):
 def replay(body):
     r = body["replay"]
     case = r.get("case")
+    if case and (case.startswith("runsched") or case.startswith("explore")):
+        import C18
+        return C18.replay(body)
     if not case or not case.startswith("pool"):
         return simcheck.replay(body)
     hb, _ = vlib.build_harness("h_pool", r.get("flavour", "plain"))
